@@ -233,7 +233,9 @@ func c18Sweep(run *common.Run, maxLen int) {
 		}
 	})
 	// path-like list items: kept as written (a path cleaner would rewrite every one of them)
-	for _, w := range []string{"mock/", "./store", "a//b", "a/./b", "a/b/..", "/", ".", "./", "a/,./b , c/../d", "..", "vendor/,"} {
+	for _, w := range []string{"mock/", "./store", "a//b", "a/./b", "a/b/..", "/", ".", "./", "a/,./b , c/../d", "..", "vendor/,",
+		// enclosing quotes (what an env file that is not read by a shell leaves in place) are ordinary characters
+		`"a"`, `'a'`, `"a,A"`, `'a', 'A'`, ` "1" `, `"true"`, `'yes'`, "`on`", `""`, `"`, `"a`, `a"`} {
 		nStrings++
 		for i := 0; i < c18NOpt; i++ {
 			one(i, w)
